@@ -75,8 +75,8 @@ Example C12_example :
       printed_offsets C 3 <> printed_offsets_legacy C 3 /\
       debug_check (nth 3 (o_ss C) []) (printed_offsets C 3) 4 = ChkOk /\
       debug_check (nth 3 (o_ss C) []) (printed_offsets_legacy C 3) 4 <> ChkOk /\
-      resolve_static C 3 (printed_offsets C 3) (actuals_of C [true; true; true; true] [3; 2; 2; 3]) = Ok (WFn 3 0) /\
-      resolve C 3 (actuals_of C [true; true; true; true] [3; 2; 2; 3]) = Ok (WFn 3 0) /\
+      resolve_static C 3 (printed_offsets C 3) (actuals_of C [true; true; true; true] [2; 2; 2; 3]) = Ok (WFn 3 0) /\
+      resolve C 3 (actuals_of C [true; true; true; true] [2; 2; 2; 3]) = Ok (WFn 3 0) /\
       resolve_static C 1 (printed_offsets C 1) (actuals_of C [true; false; true] [1; 3]) = Ok (WFn 1 0)
   | Err _ => False
   end.
